@@ -29,6 +29,13 @@ Definition stmt_meta (s : stmt) : meta :=
   | SDecl m _ _ _ | SIf m _ _ _ | SRet m _ | SSubst m _ _ _ _ _ | SCeq m _ _ | SLog m _ | SAssert m _ => m
   end.
 
+(* the assignment operator of a statement (None: not a substitution), and the pair
+   (location, operator) that the SSA construction must keep (Proofs.SigAssignSsa) *)
+Definition stmt_op (s : stmt) : option assign_op :=
+  match s with SSubst _ _ op _ _ _ => Some op | _ => None end.
+
+Definition otag (s : stmt) : meta * option assign_op := (stmt_meta s, stmt_op s).
+
 (* the `<--` statements and the constraint statements of a cfg, in block order *)
 Definition assign_stmts (g : cfg) : list stmt := filter is_assign (all_stmts g).
 Definition constraint_stmts (g : cfg) : list stmt := filter is_constraint (all_stmts g).
